@@ -190,9 +190,11 @@ def classify(cs, msg):
         if "nameplate" not in msg:
             return MUST_ERROR, "claim-missing-field"
         if cs.claim_sent:
+            # "claim may only be called once per connection" (protocol document):
+            # also after a first claim that was refused as crowded/reclaimed
             if cs.claim_ok:
                 return MUST_ERROR, "second-claim"
-            return EITHER, "claim-after-refused-claim"
+            return MUST_ERROR, "second-claim-after-refused-claim"
         return OK, "claim"
     if t == "release":
         if cs.release_done:
